@@ -332,6 +332,9 @@ class spawn(SpawnBase):
             # ptyprocess closes the descriptor before it tries to terminate
             # the child, so the descriptor is gone even if that fails; the
             # number must not be used again, it may belong to another file.
+            # ptyprocess itself forgets the number only on success, and
+            # getwinsize/setwinsize/getecho/setecho go through it.
+            self.ptyproc.fd = -1
             self.child_fd = -1
             self.closed = True
         self.isalive()  # Update exit status from ptyproc
